@@ -327,6 +327,34 @@ for g in GROUPS:
     mk()
 
 
+# --- a batch whose size equals the vector dimension (3): the hand-written backward treats the batch axis as a batch axis -----------------
+# (torch.cross / torch.linalg.cross pick or need an explicit dim; (3, 3) operands are where a missing dim changes the meaning).
+for g in GROUPS:
+    for what, (kinds, out_kind) in KINDS.items():
+        def mk(g=g, what=what, kinds=kinds, out_kind=out_kind):
+            cls = f'{g}_{what}'
+            @obligation(f'C04.{cls}.backward.batch_of_three', functions=[f'{OPS}:{cls}.forward', f'{OPS}:{cls}.setup_context', f'{OPS}:{cls}.backward'],
+                        max_paths=8, timeout=300, tol=2e-5)
+            def ob(env):
+                op = env.load(OPS); T = env.T
+                F = getattr(op, cls)
+                n_out = {'p3': 3, 'p4': 4, 'a': S.DOF[g], 'G': S.DIM[g]}[out_kind]
+                GEN1 = ('generic',)
+                def inp(kind, name):
+                    if kind == 'G': return group_elem(env, g, name, qregimes=GEN1)
+                    if kind == 'a': return alg_elem(env, g, name, regimes=GEN1)
+                    return env.vec(name, 3 if kind == 'p3' else 4, regimes=GEN1)
+                items = [[inp(k, f'{"XYZ"[j] if k == "G" else "apq"[j]}{i}') for j, k in enumerate(kinds)] for i in range(3)]
+                cots = [env.vec(f'g{i}', n_out, regimes=GEN1) for i in range(3)]
+                batched = [T.stack([items[i][j] for i in range(3)], 0) for j in range(len(kinds))]
+                out, grads = env.backward(F, batched, T.stack(cots, 0))
+                single = [env.backward(F, items[i], cots[i]) for i in range(3)]
+                env.eq('forward: item i of the batch is the forward of item i', out, T.stack([single[i][0] for i in range(3)], 0))
+                for j in range(len(kinds)):
+                    env.eq(f'grad_input{j}: item i of the batched backward is the backward of item i', grads[j], T.stack([single[i][1][j] for i in range(3)], 0))
+        mk()
+
+
 # --- dispatch: the API reaches the result ONLY through the autograd Function whose backward is under contract -------------------------
 # The Jacobian convention of C04 lives in the hand-written backward of the Functions (C04.{cls}.backward).  A caller inherits it only if
 # the group-typed argument flows into the result through Function.apply and nowhere else - for every broadcast shape class the glue
